@@ -2,7 +2,7 @@
    Only statements; all proof work is in Proofs/C05_Geodetic.v and Proofs/C05_Flow.v. *)
 From Coq Require Import Reals ZArith QArith List Bool String.
 From Verif Require Import Lib.Dyadic Lib.Atan2 Lib.Ival Lib.C05_Prog.
-From Verif Require Import Model.C05_Geodetic Model.C05_Flow Proofs.C05_Geodetic Proofs.C05_Flow Proofs.C05_FlowToday
+From Verif Require Import Model.C05_Geodetic Model.C05_Flow Proofs.C05_Geodetic Proofs.C05_Flow Proofs.C05_FlowToday Proofs.C05_Table
   Proofs.C05_AccDefs Proofs.C05_Accuracy.
 From Verif Require Gen.C05_EllipsoidFlow.
 From Verif Require Gen.C05_Ellipsoids.
@@ -112,9 +112,9 @@ Theorem grs80_constants :
 Proof. exact grs80_is_published. Qed.
 Print Assumptions grs80_constants.
 
-(* all latitudes up to 85.9 deg north and south, all longitudes, on the surfaces h = +100 km and h = -100 km *)
+(* all latitudes up to 1.57 rad = 89.95 deg north and south, all longitudes, on the surfaces h = +100 km and h = -100 km *)
 Theorem halley_accuracy_on_height_surfaces_partial : forall phi lam h,
-  (h = 100000 \/ h = -100000) -> - (3 / 2) <= phi <= 3 / 2 -> roundtrip_ok grs80_a grs80_f phi lam h.
+  (h = 100000 \/ h = -100000) -> - (157 / 100) <= phi <= 157 / 100 -> roundtrip_ok grs80_a grs80_f phi lam h.
 Proof. exact accuracy_on_height_surfaces_l. Qed.
 Print Assumptions halley_accuracy_on_height_surfaces_partial.
 
